@@ -999,6 +999,17 @@ pub fn step(sh: &Shared, e: &Sexp) -> Option<()> {
       }
       _ => return None,
     },
+    // the caller lets go of ONE named handle (a connectable, an observable, a subject) and keeps its Subscriptions
+    "forget" => {
+      let name = a[0].atom()?.to_string();
+      let gone: Vec<(String, Entry)> = {
+        let mut g = sh.lock();
+        let (gone, keep): (Vec<_>, Vec<_>) = std::mem::take(&mut g.env).into_iter().partition(|(n, _)| *n == name);
+        g.env = keep;
+        gone
+      };
+      drop(gone);
+    }
     "drop" => {
       let (env, users, stash) = {
         let mut g = sh.lock();
